@@ -48,13 +48,16 @@ def all_frames():
         fs.append(frame(w, "none", 0, 1, 0, post=1))
         fs.append(frame(w, "none", 0, 2, 0, dname="epigraph"))       # (docutils' quote directives have no options)
         fs.append(frame(w, "none", 0, 0, 1, post=1, dname="epigraph"))
+        # a directive that sets no source position on the node it returns
+        fs.append(frame(w, "none", 0, 0, 0, dname="container"))
+        fs.append(frame(w, "none", 0, 1, 1, post=1, dname="container"))
     for w in ("quote", "list", "div", "inc"):
         fs.append(frame(w, post=1))
     return fs
 
 
 def small_frames():
-    fs = [frame(w) for w in ("quote", "list", "div", "inc")] + [frame("inc", post=1), frame("quote", post=1), frame("btick", dname="epigraph")]
+    fs = [frame(w) for w in ("quote", "list", "div", "inc")] + [frame("inc", post=1), frame("quote", post=1), frame("btick", dname="epigraph"), frame("colon", dname="container")]
     for w in ("btick", "colon"):
         for opt, nopt in (("none", 0), ("colon", 1)):
             for blanks in (0, 1):
